@@ -322,7 +322,12 @@ def prop_schema(rng, depth=2):
 
 def run_shard(ctx):
     from vlib import sut  # pylint: disable=import-outside-toplevel
+    from vlib.checks.c04 import shared_property_owners  # pylint: disable=import-outside-toplevel
 
+    # a required property is annotated as always present - also when its `Property` object is declared by
+    # a second model under another name (the scenario and its oracle are C04's: the attribute must be there)
+    for idx in range(12):
+        shared_property_owners(ctx, sut, idx)
     rng = ctx.rng
     for idx in range(ctx.params["classes"]):
         if idx % 3 != 2:
@@ -407,6 +412,12 @@ def run_shard(ctx):
 def replay(case, ctx):
     from vlib import sut  # pylint: disable=import-outside-toplevel
 
+    if "shared_property" in case:
+        from vlib.checks.c04 import shared_property_owners  # pylint: disable=import-outside-toplevel
+
+        for idx in range(12):
+            shared_property_owners(ctx, sut, idx)
+        return
     root = sut.parse_direct(case["schema"]) if "schema" in case else gen_dsl.build(case["spec"])
     classes = list({id(c): c for c in sut.get_object_classes(root)}.values())
     names_ns = annotation_namespace(sut, classes)
